@@ -360,7 +360,8 @@ def gen_ecl(rng, game, tables, **kw):
         tcur = 0
         for _ in range(r.randint(0, 5)):
             if r.chance(0.4):
-                tcur += r.randint(0, 60); lines.append('%d:' % tcur) if r.chance(0.5) else lines.append('+%d:' % 0)
+                if r.chance(0.3): tcur = r.randint(0, 200); lines.append('%d:' % tcur)       # (times may go back: items grouped by kind, not by time)
+                else: tcur += r.randint(0, 60); lines.append('%d:' % tcur) if r.chance(0.5) else lines.append('+%d:' % 0)
             op, params = r.pick(tl_calls_arg0)
             args = [lit_arg(r, p, names) for p in params if not p.is_padding]
             lines.append('ins_%d(%s);' % (op, ', '.join(args)))
